@@ -328,7 +328,34 @@ def rule_I(ctx):
                   'insertion without an index is chronological, with an index positional', node=h.node)
 
 
+class _Proxy:
+    def __init__(self, ctx):
+        self._ctx = ctx
+
+    def __getattr__(self, k):
+        return getattr(self._ctx, k)
+
+    def ok(self, rule, *a, **kw):
+        return self._ctx.ok('C04.X', *a, **kw)
+
+    def violation(self, rule, *a, **kw):
+        return self._ctx.violation('C04.X', *a, **kw)
+
+    def check(self, cond, rule, func, desc, witness=None, node=None, key=None):
+        return self._ctx.check(cond, 'C04.X', func, desc, witness=witness, node=node, key=key)
+
+    def recognise(self, cond, rule, func, desc, node=None, witness=None, key=None):
+        return self._ctx.recognise(cond, 'C04.X', func, desc, node=node)
+
+
+def rule_X(ctx):
+    """C04.X index extraction copies [id_ini, id_fin] inclusive (shared with C11.X)"""
+    from . import c11
+    c11.rule_X(_Proxy(ctx))
+
+
 RULES = [
+    ('C04.X', rule_X, 'quick'),
     ('C04.S', rule_S, 'quick'),
     ('C04.T', rule_T, 'quick'),
     ('C04.F', rule_F, 'quick'),
